@@ -35,6 +35,9 @@ FAMILIES = {
     "Compose": fam("MC_Compose",
                    quick=[ex(2, NilOps="= TRUE"), ex(3, Ops="<- OpsW"), sim(1500, 6, design=False, NSlots="= 3")],
                    thorough=[ex(2, NilOps="= TRUE"), chain(3, hops=0), ex(4, Ops="<- OpsW"), sim(30000, 8, NSlots="= 3")]),
+    "Source": fam("MC_Compose",
+                  quick=[ex(4, NSlots="= 1", Ops="<- OpsSrc", Shapes="<- ShapesOne", Shapes2="<- Shapes2V")],
+                  thorough=[ex(5, NSlots="= 1", Ops="<- OpsSrc", Shapes="<- ShapesOne", Shapes2="<- Shapes2V")]),
     "Transfer": fam("MC_Transfer",
                     quick=[chain(4, hops=2), sim(1500, 6, design=False, NSlots="= 2")],
                     thorough=[chain(4, hops=2), sim(30000, 8, NSlots="= 3")]),
@@ -152,7 +155,7 @@ PROPS = {
     "C12": prop(["Taint"], GEN + "a string that entered through a safe channel (its own searchable word)", None),
     "C13": prop(["Multi"], GEN + "a multi-cause node", ["Join", "JoinPkg", "GoJoin", "GoWrap2"]),
     "C15": prop(["Format"], GEN + "a value for which a Sentry report is built (all do)", None),
-    "C16": prop(["Stacks"], "every exported stack-capturing or domain-computing function of the root package and of "
+    "C16": prop(["Stacks", "Source"], "every exported stack-capturing or domain-computing function of the root package and of "
                             "errutil / withstack / domains x depth 0..3, called through four non-inlinable helper functions "
                             "in four packages (also in pairs, to check that one call does not disturb the next); distinct = "
                             "distinct (function, depth) sequences; non-trivial = all", None),
